@@ -206,10 +206,136 @@ def alignment_sweep(rep, tier):
                                        "audited_steps": steps, "violating_shifts": n}
 
 
+def _window_job(job):
+    """Reference lists longer than a power-of-two block size B in which the line of a target pid STARTS (and, in a second
+    family, ENDS) at every BYTE offset B-8 .. B+8 - both when it is stored there directly and when an earlier delete shifts
+    it there - for target pids made of 1-, 2-, 3- and 4-byte UTF-8 characters.  After every call the list must hold exactly
+    the bound pids and every bound pid must be retrievable."""
+    import hashlib
+    import os
+    import shutil
+    from ..absx import Layout
+    from ..common import pattern, snapshot
+    from hashstore.filehashstore import FileHashStore
+    B, unit, families = job
+    data = pattern(200, 5)
+    path = os.path.join(common.scratch(), "c05_window.bin")
+    with open(path, "wb") as f:
+        f.write(data)
+    cid = hashlib.sha256(data).hexdigest()
+    lay = Layout()
+    out = []
+    steps = 0
+    target = "T" + unit * 24
+    tlen = len((target + "\n").encode("utf-8"))
+    for family in families:
+        for delta in range(-8, 9):
+            # bytes before the target's line once the short pid 'a' (2 bytes with its newline) has been deleted
+            before = B + delta - (0 if family == "line starts" else tlen)
+            if before < 10:
+                continue
+            root = os.path.join(common.scratch(), "c05-window")
+            shutil.rmtree(root, ignore_errors=True)
+            store = FileHashStore(common.props(root))
+            # filler lines of at most 4000 bytes each (ASCII: bytes == characters), numbered so that they are distinct pids
+            fill, left, i = [], before, 0
+            while left > 0:
+                n = min(4000, left)
+                if left - n in range(1, 6):
+                    n -= 6  # never leave a filler line shorter than 'Fxx\n'
+                name = ("F%02d" % i + "f" * 4000)[:n - 1]
+                fill.append(name)
+                left -= n
+                i += 1
+            bound = []
+            bad = None
+
+            def audit(step):
+                nonlocal bad, steps
+                steps += 1
+                t = snapshot(root)
+                lst = t.get(lay.cid_ref_path(cid))
+                lines = lst.decode("utf-8").split("\n")[:-1] if lst else []
+                if sorted(lines) != sorted(bound):
+                    bad = ("reference list does not hold exactly the bound pids", step)
+                    return False
+                # retrieved: the target, its neighbours and the first / last lines (every pid's LINE is compared above)
+                probe = [p_ for p_ in bound if p_ == target or p_.startswith("tail") or p_ == "a"] + fill[:1] + fill[-2:]
+                for p_ in probe:
+                    if p_ not in bound:
+                        continue
+                    try:
+                        st = store.retrieve_object(p_)
+                        ok = st.read() == data
+                        st.close()
+                    except Exception as e:  # noqa: BLE001
+                        ok = False
+                    if not ok:
+                        bad = ("a bound pid is not retrievable", step + ": %s" % ("the target pid" if p_ == target else "pid #%d of %d" % (bound.index(p_), len(bound))))
+                        return False
+                return True
+
+            def do(step, fn, pid, add):
+                nonlocal bad
+                try:
+                    fn()
+                except Exception as e:  # noqa: BLE001
+                    bad = ("a call that must succeed raised %s" % type(e).__name__, step)
+                    return False
+                (bound.append if add else bound.remove)(pid)
+                return True if step.startswith("tag filler") else audit(step)
+
+            seq = [("store a", lambda: store.store_object("a", path), "a", True)]
+            seq += [("tag filler %d" % k, (lambda p_=f_: store.tag_object(p_, cid)), f_, True) for k, f_ in enumerate(fill)]
+            seq += [("tag target", lambda: store.tag_object(target, cid), target, True),
+                    ("tag tail 1", lambda: store.tag_object("tail-1" + unit, cid), "tail-1" + unit, True),
+                    ("tag tail 2", lambda: store.tag_object("tail-2", cid), "tail-2", True),
+                    ("delete a (the target's line moves to the offset under test)", lambda: store.delete_object("a"), "a", False),
+                    ("delete tail 1", lambda: store.delete_object("tail-1" + unit), "tail-1" + unit, False),
+                    ("delete target", lambda: store.delete_object(target), target, False),
+                    ("tag target again (now last line)", lambda: store.tag_object(target, cid), target, True)]
+            ok = True
+            for step, fn, pid, add in seq:
+                if not do(step, fn, pid, add):
+                    ok = False
+                    break
+            if ok:
+                for p_ in list(bound):
+                    try:
+                        store.delete_object(p_)
+                        bound.remove(p_)
+                    except Exception as e:  # noqa: BLE001
+                        bad = ("a call that must succeed raised %s" % type(e).__name__, "delete all")
+                        break
+                if not bad and [r for r, b in snapshot(root).items() if b is not None and r != "hashstore.yaml"]:
+                    bad = ("files remain after every pid was deleted", "end")
+            if bad:
+                out.append((family, delta, bad[0], bad[1]))
+    shutil.rmtree(os.path.join(common.scratch(), "c05-window"), ignore_errors=True)
+    return B, unit, out, steps
+
+
+def boundary_windows(rep, tier):
+    from ..par import pmap
+    blocks = [4096, 8192, 16384, 32768, 65536, 131072] + ([262144, 1048576] if tier == "thorough" else [])
+    units = ["x", "\u00e9", "\u6f22", "\U0001F600"]
+    steps = n = 0
+    jobs = [(B, u, (fam,)) for B in reversed(blocks) for u in units for fam in ("line starts", "line ends")]
+    for B, unit, out, st in pmap(_window_job, jobs):
+        steps += st
+        for family, delta, what, step in out:
+            n += 1
+            rep.violation({"kind": "list-boundary", "what": what + " when a pid's line starts or ends next to a block boundary of the reference list"},
+                          {"block": B, "unit_bytes": len(unit.encode("utf-8")), "family": family, "delta": delta, "step": step})
+    rep.coverage["boundary_windows"] = {"block_sizes": blocks, "utf8_bytes_per_character": [1, 2, 3, 4], "byte_offsets": "B-8 .. B+8 for the start and for the end of the target line",
+                                        "lists": len(blocks) * len(units) * 34, "audited_steps": steps, "violating_lists": n}
+
+
 def main(tier):
     rep = common.Report("C05", tier, "model_checking")
     aligned_lists(rep)
     alignment_sweep(rep, tier)
+    boundary_windows(rep, tier)
     spec = C05Spec(tier)
     res = engine_s.explore(spec, time_cap=120 if tier == "quick" else 3000, seed=common.SEED)
     for sig, det in res.violations:
@@ -236,6 +362,13 @@ def replay(rep):
         for s, what, step in out:
             print("filler pid of %d characters, step '%s': %s" % (s, step, what))
         print("replayed 1 shift (%d audited steps), %d violations" % (steps, len(out)))
+        return 1 if out else 0
+    if kind == "list-boundary":
+        r = rep["replay"]
+        unit = {1: "x", 2: "\u00e9", 3: "\u6f22", 4: "\U0001F600"}[r["unit_bytes"]]
+        B, u, out, steps = _window_job((r["block"], unit, (r["family"],)))
+        for family, delta, what, step in out:
+            print("block %d, %s at offset B%+d, step '%s': %s" % (B, family, delta, step, what))
         return 1 if out else 0
     if kind == "aligned-list":
         sub = type("Sub", (), {"coverage": {}, "found": []})()
